@@ -1,7 +1,7 @@
 (** * C10 - Every source entity reaches the transform exactly once, for any batching.
     Only statements, each closed by [exact <lemma>], with [Print Assumptions]. *)
 From Coq Require Import List ZArith NArith Bool Lia.
-From DH Require Import Model.Partition Proofs.PartitionProofs Check.C10Check Proofs.C10CheckProofs.
+From DH Require Import Model.Partition Proofs.PartitionProofs Model.JsonValue Proofs.JsonValueProofs Check.C10Check Proofs.C10CheckProofs.
 Import ListNotations.
 Open Scope Z_scope.
 
@@ -70,11 +70,33 @@ Theorem C10_refuted_panic : exists n p, 1 <= n /\ 1 <= p /\ chunks PRound n p = 
 Proof. exists 15, 10. split; [lia|]. split; [lia|]. exact refuted_panic. Qed.
 Print Assumptions C10_refuted_panic.
 
+(** numeric normalisation (entity.go toJsonValue, what IsEntityEqual compares): a value that went through a JavaScript
+    transform - goja hands an integer-valued float64 back as int64, at any depth inside slices - normalises to the same value
+    as the stored one, for every float carrier; so the sink sees no difference and stores nothing *)
+Theorem C10_js_touched_compare_equal : forall (F : Type) (i2f : Z -> F) (v v' : gval F),
+  jsimg i2f v v' -> to_json i2f v = to_json i2f v'.
+Proof. exact jsimg_neutral. Qed.
+Print Assumptions C10_js_touched_compare_equal.
+
+(** every integer kind and both float kinds carrying the same number normalise alike *)
+Theorem C10_number_kinds_irrelevant : forall (F : Type) (i2f : Z -> F) k k' n,
+  to_json i2f (GInt k n) = to_json i2f (GInt k' n) /\ to_json i2f (GInt k n) = to_json i2f (GF64 (i2f n)).
+Proof. intros; split; [apply kinds_irrelevant | apply int_is_float]. Qed.
+Print Assumptions C10_number_kinds_irrelevant.
+
+(** ... but not inside a map (the map branch of toJsonValue is commented out in the tree): the same conversion one level
+    down in a map[string]interface{} is visible to the comparison (this is the mechanism of finding F02b) *)
+Theorem C10_refuted_maps_not_normalised :
+  to_json i2fz (fst (map_example i2fz 1)) <> to_json i2fz (snd (map_example i2fz 1)).
+Proof. exact (map_not_normalised Fz i2fz 1 map_example_differs). Qed.
+Print Assumptions C10_refuted_maps_not_normalised.
+
 (** tie to the correspondence check: agreement with the repaired model on a
     case implies the executable spec on the implementation's observations *)
 Theorem C10_agree_implies_spec : forall c,
   0 <= c_n c -> 1 <= c_batch c -> 1 <= c_par c -> c_kind c <> KPushIn ->
   (o_copy c <> None -> c_kind c = KIdentity) ->     (* copy-mode cases use content-preserving transforms only *)
+  (forall v v' o o', o_json c = Some (v, v', o, o') -> jsimgb v v' = true) ->   (* normalisation cases pair a value with a JS image of it *)
   agree PCeilClip c = true -> spec_ok c = true.
 Proof. exact agree_fixed_spec. Qed.
 Print Assumptions C10_agree_implies_spec.
